@@ -50,146 +50,240 @@ Proof.
 Qed.
 
 (* ================================================================ the names a statement binds
-   A name that is neither assigned nor a loop counter anywhere in a statement is bound in the same scopes before and after:
-   the step expression of a `from` loop reads its captured variables in the frame of the body (the VM) / outside the
-   scope of the body (the reference semantics), and both find the captured cell. *)
-Definition keeps (y : str) (env env' : fenv) : Prop :=
-  forall m, lookup_scopes y (skipn m (locals env')) = lookup_scopes y (skipn m (locals env)).
-Lemma keeps_refl : forall y env, keeps y env env.
-Proof. intros y env m. reflexivity. Qed.
-Lemma keeps_trans : forall y e1 e2 e3, keeps y e1 e2 -> keeps y e2 e3 -> keeps y e1 e3.
-Proof. intros y e1 e2 e3 H1 H2 m. now rewrite H2, H1. Qed.
-Lemma skipn_S_tl : forall A m (l : list A), skipn (S m) l = skipn m (tl l).
-Proof. intros A m [|x l]; [now destruct m|reflexivity]. Qed.
-Lemma keeps_declare : forall env s x v y, y <> x -> keeps y env (fst (declare env s x v)).
+   A name y that no scope binds, and that a statement binds at most as the fresh counter of a `from` loop (asg), is bound in
+   no scope afterwards either: the step expression of a `from` loop reads its captured variables in the frame of the body
+   (the VM) / outside the scope of the body (the reference semantics), and both find the captured cell.
+   K: scope by scope, the bindings of y are the same. *)
+Definition ky (y : str) (sc : scope) : scope := filter (fun p => str_eqb (fst p) y) sc.
+Definition K (y : str) (env env' : fenv) : Prop := map (ky y) (locals env') = map (ky y) (locals env).
+Lemma K_refl : forall y env, K y env env.
+Proof. reflexivity. Qed.
+Lemma K_trans : forall y e1 e2 e3, K y e1 e2 -> K y e2 e3 -> K y e1 e3.
+Proof. unfold K. intros. congruence. Qed.
+Lemma assoc_ky : forall y sc, assoc y sc = match ky y sc with [] => None | p :: _ => Some (snd p) end.
 Proof.
-  intros env s x v y Hne. unfold declare. destruct (alloc s v) as [s1 c]. destruct (locals env) as [|sc r] eqn:El; cbn [fst]; intros m; cbn [locals]; rewrite El.
-  - destruct m as [|m]; cbn [skipn lookup_scopes assoc]; [rewrite str_eqb_neq by congruence; reflexivity|]. now destruct m.
-  - destruct m as [|m]; cbn [skipn lookup_scopes]; [rewrite assoc_set_other by exact Hne|]; reflexivity.
+  intros y sc. induction sc as [|[k c] t IH]; [reflexivity|]. cbn [ky filter fst assoc]. destruct (str_eqb k y); [reflexivity|exact IH].
 Qed.
-Lemma keeps_assign : forall env s x v y, y <> x -> keeps y env (fst (assign env s x v)).
+Lemma ky_nil_assoc : forall y sc, assoc y sc = None -> ky y sc = [].
+Proof. intros y sc H. rewrite assoc_ky in H. destruct (ky y sc); [reflexivity|discriminate]. Qed.
+Lemma lookup_ky : forall y l l', map (ky y) l' = map (ky y) l -> lookup_scopes y l' = lookup_scopes y l.
 Proof.
-  intros env s x v y Hne. unfold assign. destruct (lookup_scopes x (locals env)); [apply keeps_refl|now apply keeps_declare].
+  intros y l. induction l as [|sc l IH]; intros [|sc' l'] H; try discriminate; [reflexivity|]. cbn [map] in H. inversion H as [[H1 H2]].
+  cbn [lookup_scopes]. rewrite !assoc_ky, H1, (IH _ H2). reflexivity.
 Qed.
-Lemma keeps_undeclare : forall env x y, y <> x -> keeps y env (undeclare env x).
+Lemma K_look : forall y e e', K y e e' -> lookup_scopes y (locals e') = lookup_scopes y (locals e).
+Proof. intros y e e' H. exact (lookup_ky _ _ _ H). Qed.
+Lemma K_tl : forall y e e', K y e e' -> map (ky y) (tl (locals e')) = map (ky y) (tl (locals e)).
+Proof. unfold K. intros y e e' H. destruct (locals e) as [|a l], (locals e') as [|a' l']; try discriminate; [reflexivity|]. cbn [map] in H. now inversion H. Qed.
+Lemma K_hd : forall y e e', K y e e' -> ky y (hd [] (locals e')) = ky y (hd [] (locals e)).
+Proof. unfold K. intros y e e' H. destruct (locals e) as [|a l], (locals e') as [|a' l']; try discriminate; [reflexivity|]. cbn [map] in H. now inversion H. Qed.
+Lemma K_ne : forall y e e', K y e e' -> locals e <> [] -> locals e' <> [].
+Proof. unfold K. intros y e e' H Hn E. rewrite E in H. destruct (locals e); [congruence|discriminate]. Qed.
+Lemma ky_set_other : forall y x c sc, y <> x -> ky y (assoc_set x c sc) = ky y sc.
 Proof.
-  intros env x y Hne. unfold undeclare. destruct (locals env) as [|sc r] eqn:El; [apply keeps_refl|]. intros m. cbn [locals]. rewrite El.
-  destruct m as [|m]; cbn [skipn lookup_scopes]; [rewrite assoc_del_other by exact Hne|]; reflexivity.
+  intros y x c sc Hne. induction sc as [|[k v] t IH]; cbn [assoc_set ky filter fst].
+  - rewrite str_eqb_neq by congruence. reflexivity.
+  - destruct (str_eqb k x) eqn:E; cbn [filter fst].
+    + apply str_eqb_iff in E. subst k. rewrite str_eqb_neq by congruence. reflexivity.
+    + fold (ky y (assoc_set x c t)). fold (ky y t). now rewrite IH.
 Qed.
-Lemma keeps_block : forall y e e', keeps y (push_scope e) e' -> keeps y e (pop_scope e').
+Lemma ky_set_new : forall y c sc, ky y sc = [] -> ky y (assoc_set y c sc) = [(y, c)].
 Proof.
-  intros y e e' H m. cbn [pop_scope locals]. rewrite <- skipn_S_tl. rewrite (H (S m)). reflexivity.
+  intros y c sc. induction sc as [|[k v] t IH]; intros H; cbn [assoc_set ky filter fst].
+  - now rewrite str_eqb_refl.
+  - cbn [ky filter fst] in H. destruct (str_eqb k y) eqn:E; [discriminate|]. cbn [filter fst]. rewrite E. exact (IH H).
 Qed.
-Lemma keeps_look : forall y e e', keeps y e e' -> lookup_scopes y (locals e') = lookup_scopes y (locals e).
-Proof. intros y e e' H. exact (H 0). Qed.
+Lemma ky_del_other : forall y x sc, y <> x -> ky y (assoc_del x sc) = ky y sc.
+Proof.
+  intros y x sc Hne. induction sc as [|[k v] t IH]; [reflexivity|]. cbn [assoc_del].
+  destruct (str_eqb k x) eqn:E.
+  - apply str_eqb_iff in E. subst k. cbn [ky filter fst]. rewrite str_eqb_neq by congruence. reflexivity.
+  - cbn [ky filter fst]. fold (ky y (assoc_del x t)). fold (ky y t). now rewrite IH.
+Qed.
+Lemma ky_del_same : forall y sc, ky y (assoc_del y sc) = tl (ky y sc).
+Proof.
+  intros y sc. induction sc as [|[k v] t IH]; [reflexivity|]. cbn [assoc_del ky filter fst].
+  destruct (str_eqb k y) eqn:E; [reflexivity|]. cbn [filter fst]. rewrite E. exact IH.
+Qed.
+Lemma K_declare : forall env s x v y, y <> x -> locals env <> [] -> K y env (fst (declare env s x v)).
+Proof.
+  intros env s x v y Hne Hl. unfold declare, K. destruct (alloc s v) as [s1 c]. destruct (locals env) as [|sc r] eqn:El; [congruence|].
+  cbn [fst locals map]. now rewrite ky_set_other.
+Qed.
+Lemma K_assign : forall env s x v y, y <> x -> locals env <> [] -> K y env (fst (assign env s x v)).
+Proof. intros env s x v y Hne Hl. unfold assign. destruct (lookup_scopes x (locals env)); [apply K_refl|now apply K_declare]. Qed.
+Lemma K_block : forall y e e', K y (push_scope e) e' -> K y e (pop_scope e').
+Proof. intros y e e' H. exact (K_tl _ _ _ H). Qed.
 
+(* the names a statement can bind in a scope that does not bind them yet *)
 Lemma asgl_cons : forall st l, asgl (st :: l) = asg st ++ asgl l.
 Proof. reflexivity. Qed.
 
-Ltac keeps_same H :=
+(* y is bound below the innermost scope, which does not bind it / y is bound nowhere *)
+Definition Rk (y : str) (env : fenv) : Prop := ky y (hd [] (locals env)) = [] /\ lookup_scopes y (tl (locals env)) <> None.
+Definition Uk (y : str) (env : fenv) : Prop := lookup_scopes y (locals env) = None /\ locals env <> [].
+Definition Pre (y : str) (env : fenv) (names : list str) : Prop := Rk y env \/ (Uk y env /\ ~ In y names).
+Definition PreB (y : str) (env : fenv) (names : list str) : Prop := lookup_scopes y (locals env) <> None \/ (Uk y env /\ ~ In y names).
+Lemma Rk_K : forall y e e', K y e e' -> Rk y e -> Rk y e'.
+Proof. intros y e e' H [H1 H2]. split; [now rewrite (K_hd _ _ _ H)|]. now rewrite (lookup_ky _ _ _ (K_tl _ _ _ H)). Qed.
+Lemma Uk_K : forall y e e', K y e e' -> Uk y e -> Uk y e'.
+Proof. intros y e e' H [H1 H2]. split; [now rewrite (K_look _ _ _ H)|exact (K_ne _ _ _ H H2)]. Qed.
+Lemma Pre_K : forall y e e' ns, K y e e' -> Pre y e ns -> Pre y e' ns.
+Proof. intros y e e' ns H [HR|[HU Hn]]; [left; exact (Rk_K _ _ _ H HR)|right; split; [exact (Uk_K _ _ _ H HU)|exact Hn]]. Qed.
+Lemma PreB_K : forall y e e' ns, K y e e' -> PreB y e ns -> PreB y e' ns.
+Proof. intros y e e' ns H [HR|[HU Hn]]; [left; now rewrite (K_look _ _ _ H)|right; split; [exact (Uk_K _ _ _ H HU)|exact Hn]]. Qed.
+Lemma Rk_bound : forall y e, Rk y e -> lookup_scopes y (locals e) <> None.
+Proof.
+  intros y e [H1 H2]. destruct (locals e) as [|sc r]; [exact H2|]. cbn [hd tl lookup_scopes] in *. rewrite assoc_ky, H1. exact H2.
+Qed.
+Lemma Pre_ne : forall y e ns, Pre y e ns -> locals e <> [].
+Proof. intros y e ns [[_ H]|[[_ H] _]]; [|exact H]. intros E. rewrite E in H. now apply H. Qed.
+Lemma Pre_top : forall y e ns, Pre y e ns -> ky y (hd [] (locals e)) = [].
+Proof.
+  intros y e ns [[H _]|[[H _] _]]; [exact H|]. destruct (locals e) as [|sc r]; [reflexivity|]. cbn [hd lookup_scopes] in *.
+  apply ky_nil_assoc. now destruct (assoc y sc).
+Qed.
+Lemma Pre_PreB : forall y e ns ns', Pre y e ns -> (In y ns' -> In y ns) -> PreB y e ns'.
+Proof. intros y e ns ns' [HR|[HU Hn]] Hs; [left; exact (Rk_bound _ _ HR)|right; split; [exact HU|intros Hi; exact (Hn (Hs Hi))]]. Qed.
+Lemma PreB_push : forall y e ns, PreB y e ns -> Pre y (push_scope e) ns.
+Proof.
+  intros y e ns [HR|[[H1 H2] Hn]]; [left; split; [reflexivity|exact HR]|right]. split; [|exact Hn]. split; [exact H1|discriminate].
+Qed.
+
+Ltac K_same H :=
   repeat match type of H with
          | match ?x with _ => _ end = _ => destruct x; try discriminate H
          end;
-  inversion H; subst; apply keeps_refl.
+  inversion H; subst; apply K_refl.
 
-Lemma exec_keeps : forall fuel,
-  (forall env st s sig env' s', Eval.exec fuel env st s = SOk sig env' s' -> forall y, ~ In y (asg st) -> y <> hid -> keeps y env env') /\
-  (forall env l s sig env' s', exec_block fuel env l s = SOk sig env' s' -> forall y, ~ In y (asgl l) -> y <> hid -> keeps y env env').
+Lemma exec_K : forall y, y <> hid -> forall fuel,
+  (forall env st s sig env' s', Eval.exec fuel env st s = SOk sig env' s' -> Pre y env (asg st) -> K y env env') /\
+  (forall env l s sig env' s', exec_block fuel env l s = SOk sig env' s' -> Pre y env (asgl l) -> K y env env').
 Proof.
-  induction fuel as [|fuel [IHs IHb]]; [split; intros; discriminate|].
-  assert (Hib : forall body env s sig env' s', in_block_ fuel body env s = SOk sig env' s' ->
-            forall y, ~ In y (asgl body) -> y <> hid -> keeps y env env').
-  { intros body env s sig env' s' H y Hy Hh. unfold in_block_ in H.
+  intros y Hh. induction fuel as [|fuel [IHs IHb]]; [split; intros; discriminate|].
+  assert (Hib : forall body env s sig env' s', in_block_ fuel body env s = SOk sig env' s' -> PreB y env (asgl body) -> K y env env').
+  { intros body env s sig env' s' H HP. unfold in_block_ in H.
     destruct (exec_block fuel (push_scope env) body s) as [g e1 s1|f s1|] eqn:E; try discriminate. inversion H; subst.
-    apply keeps_block. exact (IHb _ _ _ _ _ _ E y Hy Hh). }
+    apply K_block. exact (IHb _ _ _ _ _ _ E (PreB_push _ _ _ HP)). }
   split.
-  - intros env st s sig env' s' H y Hy Hh. destruct st as [x e|x e|x o e|e|e sp|e|c body|c body els|c body nxt|c body|a b incl step nm collide body| | |[e|]].
+  - intros env st s sig env' s' H HP.
+    destruct st as [x e|x e|x o e|e|e sp|e|c body|c body els|c body nxt|c body|a b incl step nm collide body| | |[e|]].
     + rewrite exec_SAssign in H. destruct (eval fuel env e s) as [v s1|s1|f s1|]; try discriminate.
-      pose proof (keeps_assign env s1 x v y ltac:(intros ->; apply Hy; now left)) as K.
-      destruct (assign env s1 x v) as [e1 s2]. inversion H; subst. exact K.
+      assert (K0 : K y env (fst (assign env s1 x v))).
+      { destruct (list_eq_dec N.eq_dec y x) as [->|Hne]; [|apply K_assign; [exact Hne|exact (Pre_ne _ _ _ HP)]].
+        destruct HP as [HR|[_ Hn]]; [|exfalso; apply Hn; now left].
+        unfold assign. pose proof (Rk_bound _ _ HR) as Hb. destruct (lookup_scopes x (locals env)); [apply K_refl|congruence]. }
+      destruct (assign env s1 x v) as [e1 s2]. inversion H; subst. exact K0.
     + change (Eval.exec (S fuel) env (SModify x e) s) with
         (match eval fuel env e s with
          | EVal v s => match lookup_scopes x (captured env) with
                        | Some c => SOk SigNormal env (sset s c v) | None => SFailed (FUnbound x) s end
          | ENoVal s => SFailed (FType 3) s | EFail f s => SFailed f s | EFuel => SFuel end) in H.
-      keeps_same H.
-    + rewrite exec_SOpAssign in H. keeps_same H.
-    + rewrite exec_SPrint in H. keeps_same H.
-    + rewrite exec_SAssert in H. keeps_same H.
-    + rewrite exec_SExpr in H. keeps_same H.
+      K_same H.
+    + rewrite exec_SOpAssign in H. K_same H.
+    + rewrite exec_SPrint in H. K_same H.
+    + rewrite exec_SAssert in H. K_same H.
+    + rewrite exec_SExpr in H. K_same H.
     + rewrite exec_SIf in H. destruct (eval fuel env c s) as [[?|[|]|?| |? ? ?] s1|s1|f s1|]; try discriminate.
-      * exact (Hib _ _ _ _ _ _ H y Hy Hh).
-      * inversion H; subst. apply keeps_refl.
-    + rewrite exec_SIfElse in H. cbn [asg] in Hy. destruct (eval fuel env c s) as [[?|[|]|?| |? ? ?] s1|s1|f s1|]; try discriminate.
-      * apply (Hib _ _ _ _ _ _ H y); [|exact Hh]. intros Hi. apply Hy. apply in_or_app. now left.
-      * apply (Hib _ _ _ _ _ _ H y); [|exact Hh]. intros Hi. apply Hy. apply in_or_app. now right.
-    + rewrite exec_SIfElif in H. cbn [asg] in Hy. destruct (eval fuel env c s) as [[?|[|]|?| |? ? ?] s1|s1|f s1|]; try discriminate.
-      * apply (Hib _ _ _ _ _ _ H y); [|exact Hh]. intros Hi. apply Hy. apply in_or_app. now left.
-      * apply (Hib _ _ _ _ _ _ H y); [|exact Hh]. intros Hi. apply Hy. apply in_or_app. right. unfold asgl in Hi. cbn [flat_map] in Hi. now rewrite app_nil_r in Hi.
+      * apply (Hib _ _ _ _ _ _ H). apply (Pre_PreB _ _ _ _ HP). intros Hz. exact Hz.
+      * inversion H; subst. apply K_refl.
+    + rewrite exec_SIfElse in H. cbn [asg] in HP. destruct (eval fuel env c s) as [[?|[|]|?| |? ? ?] s1|s1|f s1|]; try discriminate.
+      * apply (Hib _ _ _ _ _ _ H). apply (Pre_PreB _ _ _ _ HP). intros Hz. apply in_or_app. now left.
+      * apply (Hib _ _ _ _ _ _ H). apply (Pre_PreB _ _ _ _ HP). intros Hz. apply in_or_app. now right.
+    + rewrite exec_SIfElif in H. cbn [asg] in HP. destruct (eval fuel env c s) as [[?|[|]|?| |? ? ?] s1|s1|f s1|]; try discriminate.
+      * apply (Hib _ _ _ _ _ _ H). apply (Pre_PreB _ _ _ _ HP). intros Hz. apply in_or_app. now left.
+      * apply (Hib _ _ _ _ _ _ H). apply (Pre_PreB _ _ _ _ HP). intros Hz. apply in_or_app. right.
+        unfold asgl in Hz. cbn [flat_map] in Hz. now rewrite app_nil_r in Hz.
     + rewrite exec_SWhile in H. destruct (eval fuel env c s) as [[?|[|]|?| |? ? ?] s1|s1|f s1|]; try discriminate.
       * destruct (in_block_ fuel body env s1) as [g e1 s2|f s2|] eqn:E; try discriminate.
-        pose proof (Hib _ _ _ _ _ _ E y Hy Hh) as K1.
+        pose proof (Hib _ _ _ _ _ _ E (Pre_PreB _ _ _ _ HP (fun Hz => Hz))) as K1.
         destruct g as [| | |v].
-        -- eapply keeps_trans; [exact K1|]. exact (IHs _ _ _ _ _ _ H y Hy Hh).
+        -- eapply K_trans; [exact K1|]. exact (IHs _ _ _ _ _ _ H (Pre_K _ _ _ _ K1 HP)).
         -- inversion H; subst. exact K1.
-        -- eapply keeps_trans; [exact K1|]. exact (IHs _ _ _ _ _ _ H y Hy Hh).
+        -- eapply K_trans; [exact K1|]. exact (IHs _ _ _ _ _ _ H (Pre_K _ _ _ _ K1 HP)).
         -- inversion H; subst. exact K1.
-      * inversion H; subst. apply keeps_refl.
-    + rewrite exec_SFrom in H. cbn [asg] in Hy.
+      * inversion H; subst. apply K_refl.
+    + rewrite exec_SFrom in H.
       destruct (eval fuel env a s) as [va s1|s1|f s1|]; try discriminate.
       destruct (eval fuel env b s1) as [vb s2|s2|f s2|]; try discriminate.
       destruct va as [lo|?|?| |? ? ?]; try discriminate. destruct vb as [hi|?|?| |? ? ?]; try discriminate. cbv zeta in H.
       set (cname := match nm with Some x => x | None => [0%N] end) in *.
-      assert (Hyc : y <> cname).
-      { unfold cname. destruct nm as [x|]; [|exact Hh]. intros ->. apply Hy. cbn [app]. now left. }
-      assert (Hyb : ~ In y (asgl body)) by (intros Hi; apply Hy; apply in_or_app; now right).
-      assert (K0 : keeps y env (fst (if collide then assign env s2 cname (RInt lo) else declare env s2 cname (RInt lo)))).
-      { destruct collide; [now apply keeps_assign|now apply keeps_declare]. }
-      destruct (if collide then assign env s2 cname (RInt lo) else declare env s2 cname (RInt lo)) as [e0 s3]. cbn [fst] in K0.
-      eapply keeps_trans; [exact K0|]. clear K0.
-      assert (Hfin : forall e1, keeps y e1 (if collide then e1 else undeclare e1 cname)).
-      { intros e1. destruct collide; [apply keeps_refl|now apply keeps_undeclare]. }
-      generalize dependent s3. generalize dependent e0. generalize fuel at 2 as n. induction n as [|n IHn]; intros e0 s3 H; [discriminate|].
-      rewrite from_iter_S in H.
-      destruct (lookup_scopes cname (locals e0)) as [c0|]; try discriminate.
-      destruct (sget s3 c0) as [[i|?|?| |? ? ?]|]; try discriminate.
-      destruct (if incl then (i <=? hi)%Z else (i <? hi)%Z).
-      2:{ inversion H; subst. apply Hfin. }
-      destruct (in_block_ fuel body e0 s3) as [g e1 s4|f s4|] eqn:E; try discriminate.
-      pose proof (Hib _ _ _ _ _ _ E y Hyb Hh) as K1. eapply keeps_trans; [exact K1|].
-      assert (Hnext : forall s5, (let bump := fun (sv : rvalue) (s : rstate) =>
-                  match sget s c0, sv with
-                  | Some (RInt i'), RInt d => if i32_ok (i' + d)%Z then from_iter fuel incl hi step cname collide body n e1 (sset s c0 (RInt (i' + d)%Z))
-                                              else SFailed FOverflow s
-                  | _, _ => SFailed (FType 13) s end in
-                match step with
-                | None => bump (RInt 1) s5
-                | Some se => match eval fuel e1 se s5 with
-                             | EVal sv s => bump sv s | ENoVal s => SFailed (FType 3) s
-                             | EFail f s => SFailed f s | EFuel => SFuel end
-                end) = SOk sig env' s' -> keeps y e1 env').
-      { intros s5 H5. cbv zeta in H5.
-        assert (Hb5 : forall sv s6, match sget s6 c0, sv with
-                  | Some (RInt i'), RInt d => if i32_ok (i' + d)%Z then from_iter fuel incl hi step cname collide body n e1 (sset s6 c0 (RInt (i' + d)%Z))
-                                              else SFailed FOverflow s6
-                  | _, _ => SFailed (FType 13) s6 end = SOk sig env' s' -> keeps y e1 env').
-        { intros sv s6 H6. destruct (sget s6 c0) as [[i'|?|?| |? ? ?]|]; try discriminate. destruct sv as [d|?|?| |? ? ?]; try discriminate.
-          destruct (i32_ok (i' + d)%Z); [|discriminate]. exact (IHn _ _ H6). }
-        destruct step as [se|]; [|exact (Hb5 (RInt 1) _ H5)].
-        destruct (eval fuel e1 se s5) as [sv s6|s6|f s6|]; try discriminate. exact (Hb5 _ _ H5). }
-      destruct g as [| | |v].
-      * exact (Hnext _ H).
-      * inversion H; subst. apply Hfin.
-      * exact (Hnext _ H).
-      * inversion H; subst. apply Hfin.
-    + inversion H; subst. apply keeps_refl.
-    + inversion H; subst. apply keeps_refl.
-    + rewrite exec_SReturn in H. keeps_same H.
-    + inversion H; subst. apply keeps_refl.
-  - intros env l s sig env' s' H y Hy Hh. destruct l as [|st l]; [inversion H; subst; apply keeps_refl|].
-    rewrite exec_block_cons in H. rewrite asgl_cons in Hy.
+      pose proof (Pre_ne _ _ _ HP) as Hne0. pose proof (Pre_top _ _ _ HP) as Htop.
+      (* the iterations *)
+      assert (Hit : forall n e0 s3, PreB y e0 (asgl body) -> from_iter fuel incl hi step cname collide body n e0 s3 = SOk sig env' s' ->
+                exists en, K y e0 en /\ env' = (if collide then en else undeclare en cname)).
+      { induction n as [|n IHn]; intros e0 s3 HP0 H0; [discriminate|].
+        rewrite from_iter_S in H0.
+        destruct (lookup_scopes cname (locals e0)) as [c0|]; try discriminate.
+        destruct (sget s3 c0) as [[i|?|?| |? ? ?]|]; try discriminate.
+        destruct (if incl then (i <=? hi)%Z else (i <? hi)%Z).
+        2:{ inversion H0; subst. exists e0. split; [apply K_refl|reflexivity]. }
+        destruct (in_block_ fuel body e0 s3) as [g e1 s4|f s4|] eqn:E; try discriminate.
+        pose proof (Hib _ _ _ _ _ _ E HP0) as K1.
+        assert (Hnext : forall s5, (let bump := fun (sv : rvalue) (s : rstate) =>
+                    match sget s c0, sv with
+                    | Some (RInt i'), RInt d => if i32_ok (i' + d)%Z then from_iter fuel incl hi step cname collide body n e1 (sset s c0 (RInt (i' + d)%Z))
+                                                else SFailed FOverflow s
+                    | _, _ => SFailed (FType 13) s end in
+                  match step with
+                  | None => bump (RInt 1) s5
+                  | Some se => match eval fuel e1 se s5 with
+                               | EVal sv s => bump sv s | ENoVal s => SFailed (FType 3) s
+                               | EFail f s => SFailed f s | EFuel => SFuel end
+                  end) = SOk sig env' s' -> exists en, K y e0 en /\ env' = (if collide then en else undeclare en cname)).
+        { intros s5 H5. cbv zeta in H5.
+          assert (Hb5 : forall sv s6, match sget s6 c0, sv with
+                    | Some (RInt i'), RInt d => if i32_ok (i' + d)%Z then from_iter fuel incl hi step cname collide body n e1 (sset s6 c0 (RInt (i' + d)%Z))
+                                                else SFailed FOverflow s6
+                    | _, _ => SFailed (FType 13) s6 end = SOk sig env' s' -> exists en, K y e0 en /\ env' = (if collide then en else undeclare en cname)).
+          { intros sv s6 H6. destruct (sget s6 c0) as [[i'|?|?| |? ? ?]|]; try discriminate. destruct sv as [d|?|?| |? ? ?]; try discriminate.
+            destruct (i32_ok (i' + d)%Z); [|discriminate]. destruct (IHn _ _ (PreB_K _ _ _ _ K1 HP0) H6) as (en & Kn & En).
+            exists en. split; [eapply K_trans; eassumption|exact En]. }
+          destruct step as [se|]; [|exact (Hb5 (RInt 1) _ H5)].
+          destruct (eval fuel e1 se s5) as [sv s6|s6|f s6|]; try discriminate. exact (Hb5 _ _ H5). }
+        destruct g as [| | |v].
+        - exact (Hnext _ H0).
+        - inversion H0; subst. exists e1. split; [exact K1|reflexivity].
+        - exact (Hnext _ H0).
+        - inversion H0; subst. exists e1. split; [exact K1|reflexivity]. }
+      destruct (locals env) as [|sc r] eqn:El; [congruence|]. cbn [hd] in Htop.
+      destruct collide.
+      * (* the counter is an existing variable, or becomes a variable of this scope *)
+        assert (K0 : K y env (fst (assign env s2 cname (RInt lo))) /\ PreB y (fst (assign env s2 cname (RInt lo))) (asgl body)).
+        { destruct (list_eq_dec N.eq_dec y cname) as [Ey|Hne].
+          - destruct HP as [HR|[_ Hn]].
+            + pose proof (Rk_bound _ _ HR) as Hb. unfold assign. rewrite <- Ey. destruct (lookup_scopes y (locals env)) eqn:Ely; [|congruence].
+              cbn [fst]. split; [apply K_refl|left; rewrite Ely; exact Hb].
+            + exfalso. unfold cname in Ey. destruct nm as [x|]; [|exact (Hh Ey)]. apply Hn. cbn [asg]. left. now rewrite Ey.
+          - pose proof (K_assign env s2 cname (RInt lo) y Hne ltac:(rewrite El; discriminate)) as K0. split; [exact K0|].
+            apply (PreB_K _ _ _ _ K0). apply (Pre_PreB _ _ _ _ HP). intros Hz. destruct nm as [x|]; cbn [asg]; [right; exact Hz|exact Hz]. }
+        destruct (assign env s2 cname (RInt lo)) as [e0 s3]. cbn [fst] in K0. destruct K0 as [K0 P0].
+        destruct (Hit _ _ _ P0 H) as (en & Kn & ->). eapply K_trans; eassumption.
+      * (* a counter of its own, removed afterwards *)
+        unfold declare in H. destruct (alloc s2 (RInt lo)) as [s3 c]. rewrite El in H.
+        set (e0 := {| locals := assoc_set cname c sc :: r; captured := captured env; cur := cur env |}) in *.
+        destruct (list_eq_dec N.eq_dec y cname) as [Ey|Hne].
+        -- assert (P0 : PreB y e0 (asgl body)).
+           { left. cbn [e0 locals lookup_scopes]. rewrite <- Ey, assoc_set_same. discriminate. }
+           destruct (Hit _ _ _ P0 H) as (en & Kn & ->). unfold K in *. cbn [e0 locals map] in Kn. rewrite El. cbn [map].
+           unfold undeclare. destruct (locals en) as [|scn rn] eqn:En; [discriminate|]. cbn [map] in Kn. inversion Kn as [[K1 K2]].
+           cbn [locals map]. rewrite K2. f_equal. rewrite <- Ey in *. rewrite ky_del_same, K1, (ky_set_new y c sc Htop), Htop. reflexivity.
+        -- assert (K0 : K y env e0) by (unfold K; cbn [e0 locals map]; rewrite El; cbn [map]; now rewrite ky_set_other).
+           assert (P0 : PreB y e0 (asgl body)).
+           { apply (PreB_K _ _ _ _ K0). apply (Pre_PreB _ _ _ _ HP). intros Hz. unfold cname in Hne. destruct nm as [x|]; cbn [asg]; [|exact Hz].
+             apply filter_In. split; [exact Hz|]. rewrite str_eqb_neq by congruence. reflexivity. }
+           destruct (Hit _ _ _ P0 H) as (en & Kn & ->). eapply K_trans; [exact K0|]. eapply K_trans; [exact Kn|].
+           unfold K, undeclare. destruct (locals en) as [|scn rn] eqn:En; [now rewrite En|]. cbn [locals map]. now rewrite ky_del_other.
+    + inversion H; subst. apply K_refl.
+    + inversion H; subst. apply K_refl.
+    + rewrite exec_SReturn in H. K_same H.
+    + inversion H; subst. apply K_refl.
+  - intros env l s sig env' s' H HP. destruct l as [|st l]; [inversion H; subst; apply K_refl|].
+    rewrite exec_block_cons in H. rewrite asgl_cons in HP.
     destruct (Eval.exec fuel env st s) as [g e1 s1|f s1|] eqn:E; try discriminate.
-    pose proof (IHs _ _ _ _ _ _ E y ltac:(intros Hi; apply Hy; apply in_or_app; now left) Hh) as K1.
+    assert (HP1 : Pre y env (asg st)) by (destruct HP as [HR|[HU Hn]]; [now left|right; split; [exact HU|intros Hi; apply Hn; apply in_or_app; now left]]).
+    pose proof (IHs _ _ _ _ _ _ E HP1) as K1.
     destruct g as [| | |v]; try (inversion H; subst; exact K1).
-    eapply keeps_trans; [exact K1|]. apply (IHb _ _ _ _ _ _ H y); [|exact Hh]. intros Hi. apply Hy. apply in_or_app. now right.
+    eapply K_trans; [exact K1|]. apply (IHb _ _ _ _ _ _ H). apply (Pre_K _ _ _ _ K1).
+    destruct HP as [HR|[HU Hn]]; [now left|right; split; [exact HU|intros Hi; apply Hn; apply in_or_app; now right]].
 Qed.
